@@ -30,6 +30,7 @@ type StmtSite struct {
 	Prepare ssa.CallInstruction // the Prepare call for prepared statements (else nil)
 	SQL     *SQLStmt
 	Args    []ssa.Value // bound parameters when passed as a literal variadic list; nil when dynamic
+	ArgsFn  *ssa.Function // the function the Args values live in (the caller, when a helper forwards its own variadic list)
 	Dynamic bool        // parameters passed as a run-time built slice
 	OnTx    bool        // executed on a transaction (or a statement prepared on one)
 	Scan    ssa.CallInstruction
@@ -563,6 +564,10 @@ func (v *Vocab) stmtsIn(fn *ssa.Function, method string) []*StmtSite {
 	// bind: parameters of a storage-package helper read as the (constant) arguments of the call that reached it:
 	// a helper that takes the table / view name as a parameter is read once per caller with that name filled in
 	bind := map[*ssa.Parameter]ssa.Value{}
+	// a helper that forwards its own variadic list (`exec(query string, args ...any)` -> `db.Exec(query, args...)`)
+	// executes the statement with the literal list of the call that reached it
+	bindVar := map[*ssa.Parameter][]ssa.Value{}
+	bindVarFn := map[*ssa.Parameter]*ssa.Function{}
 	var visit func(f *ssa.Function, depth int)
 	visit = func(f *ssa.Function, depth int) {
 		if seen[f] || f.Blocks == nil {
@@ -588,6 +593,13 @@ func (v *Vocab) stmtsIn(fn *ssa.Function, method string) []*StmtSite {
 						if i < len(cargs) {
 							if k, isConst := cargs[i].(*ssa.Const); isConst {
 								bind[prm] = k
+							}
+							if i == len(d.Static.Params)-1 && d.Static.Signature.Variadic() {
+								if va, ok := VarArgs(cargs[i]); ok {
+									bindVar[prm], bindVarFn[prm] = va, f
+								} else if k, isConst := cargs[i].(*ssa.Const); isConst && k.IsNil() {
+									bindVar[prm], bindVarFn[prm] = []ssa.Value{}, f
+								}
 							}
 						}
 					}
@@ -647,9 +659,12 @@ func (v *Vocab) stmtsIn(fn *ssa.Function, method string) []*StmtSite {
 			}
 			sql.Incomplete = !complete
 			site.SQL = sql
+			site.ArgsFn = f
 			if len(args) == 1 {
 				if va, ok := VarArgs(args[0]); ok {
 					site.Args = va
+				} else if prm, isPrm := args[0].(*ssa.Parameter); isPrm && bindVar[prm] != nil {
+					site.Args, site.ArgsFn = bindVar[prm], bindVarFn[prm]
 				} else {
 					site.Dynamic = true
 				}
